@@ -24,6 +24,7 @@ PROPS = {
     "C05": ["contracts.c05_substitution"],
     "C06": ["contracts.c06_constructors"],
     "C07": ["contracts.c07_printers"],
+    "C08": ["contracts.c08_parser"],
     "C10": ["contracts.c10_rewriters"],
     "C11": ["contracts.c11_cnf"],
     "C12": ["contracts.c12_oracles"],
